@@ -227,6 +227,20 @@ Example C06_source_tie_kmp_deduplicate_example :
   gen_RemoveSequences [(1,1); (2,2); (3,3); (4,4)] [([(9,9)], (1, 3))] = Ok [(1,1); (4,4)].
 Proof. vm_compute. repeat split; reflexivity. Qed.
 
+From Texel Require Import Snap.ProofsGenCleanup.
+From Texel.Gen Require Import CleanupRingGen.
+
+(** ** tie G2 (loops): cleanupNewRing REGENERATED from snap.go on this run (gen/CleanupRingGen.v) is the model's, for
+    every ring: the closing vertex dropped before spike removal, the loop that drops it again afterwards (fix ffc0f16;
+    the model's structural [trimClosing], the generated loop on fuel len + 1), both exits for fewer than 3 vertices.
+    It calls the REGENERATED kmpDeduplicate and asPointOrLine.  [splitRing] is the MODEL's function, with the
+    arguments (hitMultiple, ringIdx) read as the model's predicate [isMulti]: splitRing is NOT tied to the source
+    (its ordered-map stack walk and Go map of complete rings are hand-modelled, held by the correspondence only). *)
+Theorem C06_source_tie_cleanup_new_ring : forall newRing isOuter isMulti,
+  gen_cleanupNewRing newRing isOuter isMulti = cleanupNewRing newRing isOuter isMulti.
+Proof. exact gen_cleanupNewRing_spec. Qed.
+Print Assumptions C06_source_tie_cleanup_new_ring.
+
 From Texel Require Import Index.ProofsInsert Snap.ModelFull Snap.ProofsFull.
 Theorem C06_full_model_agrees_upto_level_32 : forall g P levels cfg, (gdeep g <= 32)%nat ->
   snapPolygonFull g P levels cfg = snapPolygon g P levels cfg.
